@@ -7,6 +7,7 @@
 #include <sys/resource.h>
 #include <unistd.h>
 
+#include "fiber_io.h"
 #include "fiber_manager.h"
 #include "fiber_spinlock.h"
 #include "fiber_cond.h"
@@ -30,6 +31,7 @@ static void* main_slot;
 // library might be tempted to use as an in-band marker: NULL, -1, -2, -3, 1, 2
 void* rt_token(int idx) {
   static const intptr_t special[] = {0, -1, -2, -3, 1, 2};
+  if (cfg_get("ret_null", 0) == idx + 1) return 0;   // this one fiber returns NULL
   long k = cfg_get("ret_special", 0);
   if (k > 0) return (void*)special[(idx + k) % 6];
   return (void*)(intptr_t)(0x1000 + idx);
@@ -135,6 +137,7 @@ static void* fiber_body(void* p) {
     if (!strcmp(op->name, "yield")) {
       for (int i = 0; i < (op->a > 0 ? op->a : 1); i++) {
         int before = g_fiber_switches(idx);
+        g_yield_begin(idx);
         fiber_yield();
         if (g_fiber_switches(idx) == before) g_yield_noswitch(idx);
       }
@@ -142,6 +145,22 @@ static void* fiber_body(void* p) {
       rt_work(idx, op->a);
     } else if (!strcmp(op->name, "lifecycle")) {
       rt_lifecycle(idx, op->a);
+    } else if (!strcmp(op->name, "lockwork")) {
+      // fiber_io_lock_thread(): "on this kernel thread the libc calls are the real ones until I unlock" - held across plain
+      // work only (the fiber does not give up its kernel thread in between); other kernel threads are not concerned
+      fiber_io_lock_thread();
+      rt_work(idx, op->a);
+      fiber_io_unlock_thread();
+    } else if (!strcmp(op->name, "lockyield")) {
+      // the same, but the fiber yields while its kernel thread is marked (only in programs that make no shimmed calls)
+      fiber_io_lock_thread();
+      for (int i = 0; i < (op->a > 0 ? op->a : 1); i++) {
+        int before = g_fiber_switches(idx);
+        g_yield_begin(idx);
+        fiber_yield();
+        if (g_fiber_switches(idx) == before) g_yield_noswitch(idx);
+      }
+      fiber_io_unlock_thread();
     } else if (!strcmp(op->name, "nop") || (!strcmp(op->name, "target") && op->a < 0)) {
     } else if (!H->do_op(idx, op)) {
       vs_violation("engine_limit", "unknown op %s", op->name);
